@@ -563,7 +563,8 @@ def op_census(op, oid, ctx):
             "shm": shm_list(),
         }
         key = json.dumps(cur, sort_keys=True)
-        waiting_feeder = bool(op.get("after_shutdown")) and any(t.startswith("QueueFeederThread") for t in cur["threads"])
+        # a queue's feeder thread is a daemon that is told to stop but never joined: wait (bounded) for it to go
+        waiting_feeder = (bool(op.get("after_shutdown")) or bool(op.get("tag"))) and any(t.startswith("QueueFeederThread") for t in cur["threads"])
         if (key == prev and not waiting_feeder) or time.monotonic() > deadline:
             cur["fd_detail"] = detail
             return cur
